@@ -151,6 +151,22 @@ def random_cfgs(tier, base_id, algos=("T_HOO", "HCT", "VHCT"), queries=False, se
             i += 1
             q = sorted(rnd.sample(range(n), 4)) if queries or rep % 4 == 0 else []
             cfgs.append({"id": i, "algo": algo, "kind": kind, "K": Kk, "D": D, "box": box, "n": n, "T": n, "prm": prm, "pattern": rnd.choice(["g01", "bern", "peak", "peak", "tied", "const", "flat", "spike", "spike"]), "seed": rnd.randrange(1 << 30), "queries": q, "midq": sorted(rnd.sample(range(n), 3)) if rep % 4 == 2 else [], "rtype": [None, "f32", "f64", "i64", "int", None][rep % 6]})
+    # rewards on a far-away scale (roff + grid value): statistics computed by cancellation-prone one-pass formulas go wrong
+    # here while count, mean and list stay right; the tree bandits are equivariant under a translation of the rewards
+    for algo in algos:
+        for roff in ((1e7, -1e8) if tier == "quick" else (1e6, 1e7, -1e8, 3e9, -2.0 ** 27)):
+            n = rnd.choice([100, 128, 200])
+            for _ in range(50):
+                prm = draw_prm(rnd, algo)
+                t = TB.tables({"algo": algo, "n": n, "T": n, "prm": prm})
+                if t is not None and not t["amb"]:
+                    break
+            else:
+                raise C.Machinery("no representable parameter draw")
+            i += 1
+            kind, Kk = rnd.choice([("bin", 2), ("kary", 3), ("dbin", 2)])
+            cfgs.append({"id": i, "algo": algo, "kind": kind, "K": Kk, "D": 1, "box": [[0.0, 1.0]], "n": n, "T": n, "prm": prm, "pattern": rnd.choice(["g01", "bern", "peak", "spike"]), "seed": rnd.randrange(1 << 30),
+                         "queries": [], "roff": roff, "rtype": rnd.choice([None, "f64"])})
     # runs that cross the refresh rounds 512 (and 1024): delta~ is recomputed when the counter *equals* a power of two
     for algo in algos:
         if algo not in ("HCT", "VHCT"):
